@@ -1207,6 +1207,48 @@ func c05Hexify(v any) any {
 	return v
 }
 
+// neighbours: the other mechanisms of the process (case member "neighbours": type, complete configuration with
+// "$SRV" placeholders, optional rule-level configuration, moment "at"). A real configuration creates many mechanisms
+// in one process - further jwt authenticators, oauth2_introspection authenticators (which embed the same
+// oauth2.Expectation), rule-level copies of them; they are created here with the real CreatePrototype / WithConfig
+// at the moment the case names: "before" the authenticator under test, "between" its prototype and its rule-level
+// copy, or a number k = just before request k. What their creation answers is reported, never compared.
+func (w *c05World) neighbours(c map[string]any, at string, log *[]any) {
+	for i, e := range getArr(c, "neighbours") {
+		n := obj(e)
+
+		when := "before"
+		switch x := n["at"].(type) {
+		case string:
+			when = x
+		case json.Number:
+			when = x.String()
+		case float64:
+			when = fmt.Sprint(int64(x))
+		}
+
+		if when != at {
+			continue
+		}
+
+		outcome := "created"
+
+		proto, err := authenticators.CreatePrototype(c05Creation{}, fmt.Sprintf("c05-neighbour-%d", i),
+			getStr(n, "type"), obj(w.subst(n["conf"], 0)))
+		if err != nil {
+			outcome = "config:" + c05Kind(err)
+		} else if rc := obj(n["rule"]); rc != nil {
+			if _, err = proto.WithConfig(obj(w.subst(rc, 0))); err != nil {
+				outcome = "rule:" + c05Kind(err)
+			} else {
+				outcome = "created+rule"
+			}
+		}
+
+		*log = append(*log, fmt.Sprintf("%d@%s:%s", i, at, outcome))
+	}
+}
+
 // one request: mint, execute, abstract. ok reports whether it ran inside one clock second.
 func (w *c05World) request(auth authenticators.Authenticator, cch cache.Cache, tokSpec map[string]any) (
 	res, abs, info map[string]any, ok bool, err error,
@@ -1280,6 +1322,10 @@ func runJwt(c map[string]any) (any, error) {
 	var out map[string]any
 
 	for tries := 1; tries <= 8; tries++ {
+		nlog := []any{}
+
+		w.neighbours(c, "before", &nlog)
+
 		// the authenticator, built the way the mechanism catalogue builds it; a real (empty) in-memory cache
 		proto, err := authenticators.CreatePrototype(c05Creation{}, "c05", authenticators.AuthenticatorJwt, w.config(c))
 		if err != nil {
@@ -1288,6 +1334,8 @@ func runJwt(c map[string]any) (any, error) {
 		}
 
 		auth := proto
+
+		w.neighbours(c, "between", &nlog)
 
 		if rc := obj(c["rule"]); rc != nil {
 			if auth, err = proto.WithConfig(obj(w.subst(rc, 0))); err != nil {
@@ -1312,6 +1360,8 @@ func runJwt(c map[string]any) (any, error) {
 		var res, abs, info map[string]any
 
 		for i, st := range steps {
+			w.neighbours(c, fmt.Sprint(i), &nlog)
+
 			if err = w.serving(c, st); err != nil {
 				return nil, err
 			}
@@ -1333,6 +1383,7 @@ func runJwt(c map[string]any) (any, error) {
 		res["pre"] = pre
 		info["clock_ok"], info["tries"], info["srv"] = allOK, tries, w.srv.URL
 		info["fallback"] = auth.IsFallbackOnErrorAllowed()
+		info["neighbours"] = nlog
 
 		w.mu.Lock()
 		info["jwks_calls"], info["meta_calls"] = w.jwksCalls, w.metaCalls
